@@ -2,6 +2,7 @@ package disk
 
 import (
 	"crypto/sha256"
+	"encoding/base64"
 	"fmt"
 	"math/rand"
 	"strings"
@@ -110,6 +111,36 @@ func genC19(verifSeed int64, tier string, idx int) *core.Scenario {
 			st.Fault = &FaultSpec{K: r.Intn(8), Kind: faultKinds[r.Intn(len(faultKinds))], Arg: r.Intn(40), Sticky: r.Intn(4) == 0}
 		}
 		sp.Steps = append(sp.Steps, st)
+	}
+	if r.Intn(6) == 0 {
+		// an entry whose encoded size is an exact multiple of a typical buffer size
+		B := []int{512, 4096, 32768, 65536}[r.Intn(4)]
+		di, ii := r.Intn(ndocs), r.Intn(nids)
+		raw, _ := base64.StdEncoding.DecodeString(sp.Docs[di])
+		d := &sbom.Document{}
+		if proto.Unmarshal(raw, d) == nil && d.Metadata != nil {
+			keep := d.Metadata.Id
+			d.Metadata.Id = sp.IDs[ii]
+			size := func() int { return proto.Size(d) }
+			target := (size()/B + 1) * B
+			for tries := 0; tries < 8 && size() != target; tries++ {
+				if diff := target - size(); diff > 0 {
+					d.Metadata.Comment += strings.Repeat("p", diff)
+				} else if -diff <= len(d.Metadata.Comment) {
+					d.Metadata.Comment = d.Metadata.Comment[:len(d.Metadata.Comment)+diff]
+				} else {
+					target += B
+				}
+			}
+			if size() == target {
+				d.Metadata.Id = keep
+				if b, err := (proto.MarshalOptions{Deterministic: true}).Marshal(d); err == nil {
+					sp.Docs[di] = b64(b)
+					sp.Steps = append([]Step{{K: "Store", D: di, ID: ii, Via: "fs"}, {K: "Retrieve", ID: ii, Via: "fs"}}, sp.Steps...)
+					sp.Aligned = B
+				}
+			}
+		}
 	}
 	sc := &core.Scenario{V: 1, Property: "C19", Engine: "disk", VerifSeed: verifSeed, Run: idx, RunSeed: seed}
 	sc.Sched = verifsim.Config{Seed: seed, Policy: "serial", MaxSteps: 400000000, MapOrder: "random"} // 64 KiB entries read byte by byte are legitimate work
